@@ -474,8 +474,11 @@ def _oracle_canon(case):
             except Exception as e:
                 out0 = "%s: %s" % (type(e).__name__, e)
             if out0 != out:
+                I0 = G9.ref_its(case["orig"])
+                lone = 0 if I0 is None else sum(1 for _, d in I0.nodes(data=True) if d["lab"][0] is None) + I0.graph["unmapped"][1]
+                # known finding: two or more product atoms without reactant partner are numbered in the order of their input numbers
                 fails.append(_fail("canon-numbering-independent", "canon(%r) = %r but canon(%r) = %r (all reactant atoms distinguishable)"
-                                   % (r, out, case["orig"], out0)))
+                                   % (r, out, case["orig"], out0), key="partnerless-product-atoms-order" if lone >= 2 else None))
     return fails
 
 
